@@ -28,6 +28,8 @@ type C19Case struct {
 	A    gen.Stage      `json:"a"`
 	B    gen.Stage      `json:"b"`
 	Caps mockstore.Caps `json:"caps"`
+	// Conj is how the conjunction of A and B is spelled: "and" (default), "," or " ".
+	Conj string `json:"conj,omitempty"`
 }
 
 func negate(s gen.Stage) gen.Stage {
@@ -199,7 +201,7 @@ func c19Check(c C19Case) (res evid.Result) {
 		f, g := c.A, c.B
 		qf := r.run(withStages(c.Q, f))
 		qg := r.run(withStages(c.Q, g))
-		and := r.run(withStages(c.Q, gen.Stage{Kind: "labelfilter", Pred: &gen.Pred{Kind: "and", L: f.Pred, R: g.Pred}}))
+		and := r.run(withStages(c.Q, gen.Stage{Kind: "labelfilter", Pred: &gen.Pred{Kind: "and", L: f.Pred, R: g.Pred, Conj: c.Conj}}))
 		or := r.run(withStages(c.Q, gen.Stage{Kind: "labelfilter", Pred: &gen.Pred{Kind: "or", L: f.Pred, R: g.Pred}}))
 		what := fmt.Sprintf("q = %s, a = %s, b = %s, caps %+v", qText, stageText(f), stageText(g), c.Caps)
 		res.Evals = r.evals
@@ -214,6 +216,7 @@ func c19Check(c C19Case) (res evid.Result) {
 			res.Violation = evid.Viol("C19/or-not-union", "%s: q|(a or b) (%d) is not (q|a) ∪ (q|b) (%d)", what, msSize(or), msSize(msUnion(qf, qg)))
 		}
 		res.Class(true, "and/or-checked")
+		res.Class(f.Pred.Label == g.Pred.Label && f.Pred.Label != "" && f.Pred.Kind != "match" && f.Pred.Kind == g.Pred.Kind, "a-and-b-bound-one-label")
 		res.Class(msSize(and) > 0 && msSize(and) < msSize(or), "and<or")
 	}
 	res.Class(f.Kind == "linefilter", "f=linefilter")
@@ -375,6 +378,30 @@ func c19Gen(t *rapid.T) C19Case {
 				break
 			}
 		}
+	}
+	// Two typed comparisons of one label - the bounds of an interval, in either order, strict or
+	// not - over records whose values sit on the bounds, next to them and nowhere near.
+	if len(c.Recs) > 0 && rapid.IntRange(0, 3).Draw(t, "bounds-of-one-label") == 0 {
+		kind := rapid.SampledFrom([]string{"num", "num", "dur", "bytes"}).Draw(t, "bounds-kind")
+		suffix := map[string]string{"num": "", "dur": "s", "bytes": "KB"}[kind]
+		for i := range c.Recs {
+			v := rapid.SampledFrom([]string{"0", "1", "2", "3", "4", "5", "6", "1.5", "x", ""}).Draw(t, "bounds-value")
+			if v != "" && v != "x" {
+				v += suffix
+			}
+			if c.Recs[i].Labels == nil {
+				c.Recs[i].Labels = model.LabelMap{}
+			}
+			c.Recs[i].Labels["rng"] = v
+		}
+		mk := func(label string) gen.Stage {
+			k := rapid.IntRange(0, 6).Draw(t, label+"-bound")
+			p := &gen.Pred{Kind: kind, Label: "rng", Op: rapid.SampledFrom([]string{"==", "!=", ">", ">=", "<", "<=", ">=", "<="}).Draw(t, label+"-op"), Text: fmt.Sprintf("%d%s", k, suffix)}
+			p.Num, p.Dur, p.Bytes = float64(k), int64(k)*1e9, uint64(k)*1000
+			return gen.Stage{Kind: "labelfilter", Pred: p}
+		}
+		c.A, c.B = mk("bounds-a"), mk("bounds-b")
+		c.Conj = rapid.SampledFrom([]string{"and", ",", " "}).Draw(t, "bounds-conj")
 	}
 	// Labels holding composite values (nested JSON objects / arrays exposed by "| json").
 	hasMeta := false
